@@ -198,7 +198,7 @@ fn probes(le: &LayerEnv, layers: &Path) -> String {
     };
     let mut full = Env::new(); for n in PROBE_NAMES { full.insert(n, "0"); }
     let mut parts = vec![];
-    for sc in [Scope::All, Scope::Build, Scope::Launch, Scope::Process("web".into()), Scope::Process("worker".into())] {
+    for sc in [Scope::All, Scope::Build, Scope::Launch, Scope::Process("web".into()), Scope::Process("worker".into()), Scope::Process("build".into()), Scope::Process("launch".into())] {
         for start in [Env::new(), full.clone()] {
             let res = le.apply(sc.clone(), &start);
             let mut kv: Vec<(Vec<u8>, Vec<u8>)> = res.iter().map(|(k, v)| (k.as_bytes().to_vec(), canon(v.as_bytes()))).collect();
